@@ -552,7 +552,7 @@ func genC05(r *simrt.Rand, tier string, idx uint64) *Plan {
 			for i := 0; i < n; i++ {
 				op := Op{Kind: []string{"gos", "gos", "rts"}[r.Intn(3)], Shape: r.Intn(4), Size: genSize(r, &big), Rep: genSize(r, &big), CtxBuf: -1}
 				if r.Chance(1, 8) {
-					op.Bad = []string{"method", "args"}[r.Intn(2)] // rejected before any handler runs
+					op.Bad = []string{"method", "args", "encode"}[r.Intn(3)] // rejected before any handler runs
 				} else if r.Chance(1, 3) {
 					op.Flags |= FlFail
 					op.Arg = uint32(1 + r.Intn(40))
@@ -659,14 +659,33 @@ func checkC05(w *World, run *simrt.Run) {
 		if !w.P.Conns[cp.Conn].Pipelining || w.P.Params["multi"] == 1 || w.P.Params["disconnect"] == 1 {
 			continue
 		}
+		// calls whose request could not be encoded fail on the client without ever being sent; they
+		// are judged separately (a known finding, see known_findings.json) so that the order of all
+		// other completions keeps its own signatures
 		var lastID uint64
 		for _, id := range arr {
+			if c := w.callByID(id); c != nil && c.Bad == "encode" {
+				continue
+			}
 			if id < lastID {
 				c := w.callByID(id)
 				w.Violate("C05.completion-order", "completion-out-of-issue-order:"+okfail(c), fmt.Sprintf("client %d conn %d: call %d signalled after call %d which was issued later (arrivals %v)", cli, cp.Conn, id, lastID, arr))
 				break
 			}
 			lastID = id
+		}
+		lastID = 0
+		for _, id := range arr {
+			if id < lastID {
+				a, b := w.callByID(id), w.callByID(lastID)
+				if (a != nil && a.Bad == "encode") || (b != nil && b.Bad == "encode") {
+					w.Violate("C05.completion-order", "completion-out-of-issue-order:request-that-could-not-be-encoded", fmt.Sprintf("client %d conn %d: call %d signalled after call %d which was issued later; one of them failed on the client because its request could not be encoded, and that failure is signalled at once instead of in issue order (arrivals %v)", cli, cp.Conn, id, lastID, arr))
+					break
+				}
+			}
+			if id > lastID {
+				lastID = id
+			}
 		}
 		w.Probe("shared-done-order-checked")
 	}
